@@ -232,7 +232,8 @@ def rule_filenames(ctx):
     ctx.rule("C10.filenames", "T1", "file names given through files= are converted to FileInfo before they reach the workers")
     p = ctx.func(FILESET, "FileSet._configure_pool_and_worker_args")
     flow = Flow(p)
-    sel = [st for st in walk_no_nested(p.node) if isinstance(st, ast.If) and str(norm(st.test)) in ("files is None", "files is not None")]
+    sel = [st for st in walk_no_nested(p.node) if isinstance(st, ast.If) and str(norm(st.test)) in ("files is None", "files is not None")
+           and any(isinstance(x, ast.Assign) and str(norm(x.targets[0])) == "files" for x in ast.walk(st))]
     if len(sel) != 1:
         raise AnalysisError("_configure_pool_and_worker_args: the decision on `files is None` was not found")
     given = sel[0].orelse if str(norm(sel[0].test)) == "files is None" else sel[0].body
